@@ -112,12 +112,13 @@ def miri(jobs, seeds_per_job, first_seed, nops, pool_seeds=4):
         if rc == 0:
             res["pool_runs"] = out.count("OK pool")
         else:
-            viols.append("VIOLATION seed=%d step=? miri pool scenario: %s" % (first_seed, _last_error(err)))
+            line = next((l for l in out.splitlines() if l.startswith("VIOLATION")), None)
+            viols.append((line + " (miri pool scenario)") if line else "VIOLATION seed=%d step=? miri pool scenario: %s" % (first_seed, _last_error(err)))
     return res, viols
 
 
 def _last_error(err):
-    lines = [l for l in err.splitlines() if "error" in l.lower() or "Undefined Behavior" in l]
+    lines = [l for l in err.splitlines() if l.startswith("error") or "Undefined Behavior" in l or "panicked" in l]
     return (lines[0] if lines else err[-300:]).strip()[:300]
 
 
